@@ -3,9 +3,8 @@
 
 use proptest::prelude::*;
 use serde_json::{json, Value};
-use std::collections::HashSet;
 use std::convert::TryFrom;
-use varlink_parser::{Format, FormatColored, IDL};
+use varlink_parser::{Format, IDL};
 use vl_model::ctx::{hash64, load_replay, ncpu, parallel, Acc, Args, Ctx};
 use vl_model::idl::*;
 use vl_model::pt::{self, Fail};
@@ -29,87 +28,7 @@ pub fn widths() -> Vec<usize> {
     w
 }
 
-pub fn strip_ansi(s: &str) -> String {
-    let mut out = String::with_capacity(s.len());
-    let cs: Vec<char> = s.chars().collect();
-    let mut i = 0;
-    while i < cs.len() {
-        if cs[i] == '\u{1b}' && cs.get(i + 1) == Some(&'[') {
-            i += 2;
-            while i < cs.len() && !(cs[i].is_ascii_alphabetic()) {
-                i += 1;
-            }
-            i += 1;
-        } else {
-            out.push(cs[i]);
-            i += 1;
-        }
-    }
-    out
-}
-
-fn guard<T>(what: &str, w: usize, f: impl FnOnce() -> T + std::panic::UnwindSafe) -> Result<T, Fail> {
-    std::panic::catch_unwind(f).map_err(|p| Fail::new(format!("format/panic/{}", what), format!("{} panicked at width {}: {}", what, w, pt::panic_text(&p))))
-}
-
-/// Returns the distinct layouts seen.
-pub fn check_format(text: &str, intended: Option<&Idl>, ws: &[usize]) -> Result<HashSet<u64>, Fail> {
-    let a = match IDL::try_from(text) {
-        Ok(a) => a,
-        Err(e) => {
-            return Err(Fail::new("HARNESS/format-input-rejected", format!("{}", e)));
-        }
-    };
-    let pa = from_parsed(&a);
-    if let Some(want) = intended {
-        if let Some(d) = diff_parsed(&split_kinds(want), &pa, true) {
-            return Err(Fail::new("HARNESS/format-input-misparsed", d));
-        }
-    }
-    let mut layouts = HashSet::new();
-    let disp = guard("to_string", 80, std::panic::AssertUnwindSafe(|| a.to_string()))?;
-    for &w in ws {
-        let t1 = guard("get_multiline", w, std::panic::AssertUnwindSafe(|| a.get_multiline(0, w)))?;
-        layouts.insert(hash64(&t1));
-        let b = match IDL::try_from(t1.as_str()) {
-            Ok(b) => b,
-            Err(e) => {
-                return Err(Fail::new(
-                    "format/output-does-not-parse",
-                    format!("width {}: the formatted text is rejected by the parser ({}) -- text: {:?}", w, e.to_string().lines().next().unwrap_or(""), t1),
-                ));
-            }
-        };
-        let pb = from_parsed(&b);
-        if let Some(d) = diff_parsed(&pa, &pb, true) {
-            let class = if d.contains("documentation") { "documentation" } else if d.contains("order of appearance") { "member-order" } else if d.contains("interface name") { "interface-name" } else { "definition" };
-            return Err(Fail::new(format!("format/definition-changed/{}", class), format!("width {}: {}", w, d)));
-        }
-        let t2 = guard("get_multiline", w, std::panic::AssertUnwindSafe(|| b.get_multiline(0, w)))?;
-        if t2 != t1 {
-            return Err(Fail::new(
-                "format/not-idempotent",
-                format!("width {}: formatting the formatted text changes it: {:?} -> {:?}", w, t1, t2),
-            ));
-        }
-        let c = guard("get_multiline_colored", w, std::panic::AssertUnwindSafe(|| a.get_multiline_colored(0, w)))?;
-        let stripped = strip_ansi(&c);
-        if stripped != t1 {
-            let at = stripped.chars().zip(t1.chars()).position(|(x, y)| x != y).unwrap_or(stripped.len().min(t1.len()));
-            return Err(Fail::new(
-                "format/colored-differs-from-plain",
-                format!("width {}: colored rendering without escape sequences differs from the plain one at char {}: {:?} vs {:?}", w, at, stripped, t1),
-            ));
-        }
-        if c == t1 {
-            return Err(Fail::new("format/colored-has-no-color", format!("width {}: colored rendering contains no escape sequence", w)));
-        }
-        if w == 80 && disp != t1 {
-            return Err(Fail::new("format/display-differs", "Display differs from get_multiline(0, 80)".to_string()));
-        }
-    }
-    Ok(layouts)
-}
+pub use vl_model::oracles::{check_format, strip_ansi};
 
 fn cli_check(text: &str, w: usize, dir: &std::path::Path, n: usize) -> Result<bool, Fail> {
     let Some(bin) = std::env::var_os("VERIF_REPO_BIN") else { return Ok(false) };
@@ -164,7 +83,11 @@ fn replay(ctx: &mut Ctx, v: &Value) {
     let text = v["case"]["text"].as_str().unwrap_or("").to_string();
     ctx.case(None);
     ctx.force_sample(json!({"text": text}));
-    if let Err(f) = check_format(&text, None, &widths()) {
+    let mut ws = widths();
+    if let Some(w) = v["case"]["width"].as_u64() {
+        ws.insert(0, w as usize);
+    }
+    if let Err(f) = check_format(&text, None, &ws) {
         ctx.violation(&f.key, &f.what, "c10-replay", json!({"text": text}));
     }
 }
@@ -268,6 +191,30 @@ pub fn run(args: &Args) -> ! {
         }
     }
     ctx.section("cli", json!({"invocations": ran * 2}));
+    if ctx.tier == vl_model::Tier::Thorough && !ctx.failed() {
+        // coverage-guided bytes: every text the parser accepts, at a fuzzed width and at 0 / 80 / unlimited
+        let mut seeds: Vec<Vec<u8>> = vec![];
+        for (i, t) in corpus().into_iter().enumerate() {
+            let mut b = vec![[0u8, 30, 80, 200][i % 4]];
+            b.extend_from_slice(t.as_bytes());
+            seeds.push(b);
+        }
+        for (i, (tape, level)) in tapes.iter().take(60).enumerate() {
+            let mut b = vec![(i * 7 % 256) as u8];
+            b.extend_from_slice(build(tape, *level, &opts).0.as_bytes());
+            seeds.push(b);
+        }
+        if let Some(bytes) = vl_model::fuzz::campaign(&mut ctx, "c10_format", 400_000, &seeds, 2048) {
+            let w = bytes.first().copied().unwrap_or(0) as usize;
+            let text = String::from_utf8_lossy(bytes.get(1..).unwrap_or(&[])).to_string();
+            match check_format(&text, None, &[w, 0, 80, usize::MAX]) {
+                Err(f) => {
+                    ctx.violation(&f.key, &f.what, "c10-text", json!({"text": text, "width": w, "found_by": "libfuzzer"}));
+                }
+                Ok(_) => ctx.inconclusive("libFuzzer reported a crash that the oracle does not reproduce in-process"),
+            }
+        }
+    }
     ctx.exhaustive = Some(false);
     ctx.finish()
 }
